@@ -91,6 +91,13 @@ def gen_matrix(rng, m, n, mode, tags):
         j, k = rng.sample(range(n), 2)
         W[:, j] = W[:, k]
         tags.add("dup_col")
+    if mode == "float" and rng.random() < 0.25 and n > 1:
+        # nearly dependent columns (ill-conditioned, singular value ~ 2^-p of the largest)
+        j, k = rng.sample(range(n), 2)
+        p = rng.randint(8, 22)
+        W[:, j] = W[:, k] * (1.0 + 2.0 ** -p)
+        W[rng.randrange(m), j] += 2.0 ** -p
+        tags.add("near_dup_col")
     if not W.any():
         tags.add("all_zero")
     if np.any(W.sum(axis=1) == 0):
